@@ -1,1 +1,355 @@
-/-! # C01 — property theorems (not built yet) -/
+import PysphVerif.Lemmas.Nnps
+import PysphVerif.Lemmas.NnpsTree
+import Mathlib.Data.Rat.Floor
+/-!
+# C01 — every neighbour-search algorithm returns exactly the true neighbour set
+
+Property theorems only (helper lemmas live in `Lemmas/Nnps.lean`).  They are
+about `Model/Nnps.lean`, which transcribes the shared front end of
+`nnps_base.pyx` (cell size, acceptance test, brute force), the Grid family's
+3×3×3 stencil, the linked-list storage of `LinkedListNNPS`, the neighbour
+cache and the pruning test of the octree query; the model is tied to the 12
+compiled classes by differential execution on dyadic-grid inputs
+(`harness/c01.py`).
+
+All geometric statements hold over every linearly ordered field, every point
+cloud, every radius scale `rs ≥ 0`, every origin of the cell grid; storage
+statements hold for every insertion sequence / schedule.
+-/
+set_option linter.unusedSectionVars false
+namespace PysphVerif.C01
+open PysphVerif.Nnps
+
+section geometry
+variable {α : Type} [Field α] [LinearOrder α] [IsStrictOrderedRing α]
+
+/-- The acceptance test is symmetric in source and destination: `j` is
+returned for `i` exactly when `i` is returned for `j`. -/
+theorem isNbr_symm (rs : α) (p q : Pt α) : isNbr rs q p = isNbr rs p q := by
+  simp only [isNbr, gather, scatter, dist2_comm q p]
+  exact Bool.or_comm _ _
+
+/-- `d² < r²` forces every axis difference below `r`. -/
+theorem sq_lt_imp_axis_lt (p q : Pt α) (r : α) (hr : 0 ≤ r) (h : dist2 p q < r * r) :
+    |p.x - q.x| < r ∧ |p.y - q.y| < r ∧ |p.z - q.z| < r :=
+  lt_cell_of_dist2_lt hr h
+
+/-- What the acceptance test means: the distance is below `rs·max(h_i, h_j)`
+(squared form), for non-negative `rs`, `h`. -/
+theorem isNbr_iff (rs : α) (q p : Pt α) :
+    isNbr rs q p = true ↔
+      dist2 p q < (rs * q.h) * (rs * q.h) ∨ dist2 p q < (rs * p.h) * (rs * p.h) := by
+  simp only [isNbr, gather, scatter, Nnps.sq, Bool.or_eq_true]
+  constructor
+  · rintro (h | h)
+    · exact Or.inl (of_decide_eq_true h)
+    · exact Or.inr (of_decide_eq_true h)
+  · rintro (h | h)
+    · exact Or.inl (decide_eq_true h)
+    · exact Or.inr (decide_eq_true h)
+
+end geometry
+
+section floor
+variable {α : Type} [Field α] [LinearOrder α] [IsStrictOrderedRing α] [FloorRing α]
+
+/-- Points closer than one cell size land in the same or adjacent cells. -/
+theorem floor_adj (x y c : α) (hc : 0 < c) (h : |x - y| < c) : |⌊x / c⌋ - ⌊y / c⌋| ≤ 1 := by
+  have := floor_adj_aux x y c hc h
+  rw [Int.abs_eq_natAbs]
+  exact_mod_cast this
+
+/-- A neighbour (in the sense of the acceptance test) whose cut-off does not
+exceed the cell size lies in the 3×3×3 stencil of the destination's cell,
+whatever the origin of the grid. -/
+theorem grid_cover (rs c : α) (o q p : Pt α) (hc : 0 < c) (hrs : 0 ≤ rs)
+    (hq : 0 ≤ q.h) (hp : 0 ≤ p.h) (hqc : rs * q.h ≤ c) (hpc : rs * p.h ≤ c)
+    (h : isNbr rs q p = true) :
+    inStencil (cell3 Int.floor c o q) (cell3 Int.floor c o p) = true := by
+  have key : ∃ r, 0 ≤ r ∧ r ≤ c ∧ dist2 p q < r * r := by
+    rcases (isNbr_iff rs q p).mp h with h1 | h1
+    · exact ⟨rs * q.h, mul_nonneg hrs hq, hqc, h1⟩
+    · exact ⟨rs * p.h, mul_nonneg hrs hp, hpc, h1⟩
+  obtain ⟨r, hr0, hrc, hd⟩ := key
+  obtain ⟨hx, hy, hz⟩ := lt_cell_of_dist2_lt hr0 hd
+  have ax : ∀ (a b o' : α), |a - b| < r →
+      (cellOf Int.floor c o' b - cellOf Int.floor c o' a).natAbs ≤ 1 := by
+    intro a b o' hab
+    have : |(b - o') - (a - o')| < c := by
+      have e : (b - o') - (a - o') = -(a - b) := by ring
+      rw [e, abs_neg]; exact lt_of_lt_of_le hab hrc
+    exact floor_adj_aux (b - o') (a - o') c hc this
+  simp only [inStencil, cell3, Bool.and_eq_true]
+  exact ⟨⟨decide_eq_true (ax p.x q.x o.x hx), decide_eq_true (ax p.y q.y o.y hy)⟩,
+    decide_eq_true (ax p.z q.z o.z hz)⟩
+
+end floor
+
+/-! ## master theorem -/
+section master
+variable {α : Type} [Field α] [LinearOrder α] [IsStrictOrderedRing α]
+
+theorem accepts_lt (rs : α) (src : List (Pt α)) (q : Pt α) (j : Nat)
+    (h : accepts rs src q j = true) : j < src.length := by
+  unfold accepts at h
+  cases hj : src[j]? with
+  | none => rw [hj] at h; cases h
+  | some p => exact (List.getElem?_eq_some_iff.mp hj).1
+
+/-- **Master theorem.**  Whatever produces the candidate indices: if every
+accepted source index is among the candidates and no candidate is repeated,
+the filtered candidates are exactly the brute-force neighbour list up to order,
+without duplicates, and all indices are valid. -/
+theorem exact_of_cover_nodup (rs : α) (src : List (Pt α)) (q : Pt α) (cands : List Nat)
+    (hcover : ∀ j, j < src.length → accepts rs src q j = true → j ∈ cands)
+    (hnd : cands.Nodup) :
+    (nbrsOf rs src q cands).Perm (bruteForce rs src q) ∧ (nbrsOf rs src q cands).Nodup ∧
+      ∀ j ∈ nbrsOf rs src q cands, j < src.length := by
+  have nd1 : (nbrsOf rs src q cands).Nodup := hnd.filter _
+  have nd2 : (bruteForce rs src q).Nodup := List.nodup_range.filter _
+  refine ⟨?_, nd1, ?_⟩
+  · rw [List.perm_ext_iff_of_nodup nd1 nd2]
+    intro j
+    simp only [nbrsOf, bruteForce, List.mem_filter, List.mem_range]
+    constructor
+    · rintro ⟨_, ha⟩; exact ⟨accepts_lt rs src q j ha, ha⟩
+    · rintro ⟨hl, ha⟩; exact ⟨hcover j hl ha, ha⟩
+  · intro j hj
+    simp only [nbrsOf, List.mem_filter] at hj
+    exact accepts_lt rs src q j hj.2
+
+/-- The brute-force list itself: no duplicates, valid indices, and `j` is in it
+exactly when the acceptance test holds for source particle `j`. -/
+theorem bruteForce_spec (rs : α) (src : List (Pt α)) (q : Pt α) :
+    (bruteForce rs src q).Nodup ∧
+      ∀ j, j ∈ bruteForce rs src q ↔ ∃ p, src[j]? = some p ∧ isNbr rs q p = true := by
+  refine ⟨List.nodup_range.filter _, ?_⟩
+  intro j
+  simp only [bruteForce, nbrsOf, List.mem_filter, List.mem_range]
+  constructor
+  · rintro ⟨_, ha⟩
+    unfold accepts at ha
+    cases hj : src[j]? with
+    | none => rw [hj] at ha; cases ha
+    | some p => rw [hj] at ha; exact ⟨p, rfl, ha⟩
+  · rintro ⟨p, hp, hn⟩
+    refine ⟨(List.getElem?_eq_some_iff.mp hp).1, ?_⟩
+    unfold accepts; rw [hp]; exact hn
+
+end master
+
+/-! ## Grid family (LinkedList, BoxSort, DictBoxSort, SpatialHash, CellIndexing) -/
+section grid
+variable {α : Type} [Field α] [LinearOrder α] [IsStrictOrderedRing α] [FloorRing α]
+
+/-- The Grid family returns exactly the brute-force list (same order even, as
+both enumerate source indices increasingly) when the cell size is at least
+every particle's cut-off `rs·h`. -/
+theorem nbrs_exact_grid (rs c : α) (o : Pt α) (src : List (Pt α)) (q : Pt α)
+    (hc : 0 < c) (hrs : 0 ≤ rs) (hq : 0 ≤ q.h) (hqc : rs * q.h ≤ c)
+    (hsrc : ∀ p ∈ src, 0 ≤ p.h ∧ rs * p.h ≤ c) :
+    gridNbrs Int.floor rs c o src q = bruteForce rs src q := by
+  simp only [gridNbrs, gridCands, nbrsOf, bruteForce, List.filter_filter]
+  apply List.filter_congr
+  intro j _
+  cases hj : src[j]? with
+  | none => simp [accepts, hj]
+  | some p =>
+    by_cases ha : accepts rs src q j = true
+    · have hn : isNbr rs q p = true := by simpa [accepts, hj] using ha
+      have hp := hsrc p (List.mem_of_getElem? hj)
+      have := grid_cover rs c o q p hc hrs hq hp.1 hqc hp.2 hn
+      simp [ha, this]
+    · simp [ha]
+
+/-- Any class whose candidate list is a permutation of the stencil's particles
+(that is what the storage lemmas establish for each Grid-family class) returns
+the brute-force set, without duplicates, with valid indices. -/
+theorem nbrs_exact_of_cands_perm_grid (rs c : α) (o : Pt α) (src : List (Pt α)) (q : Pt α)
+    (cands : List Nat) (hperm : cands.Perm (gridCands Int.floor c o src q))
+    (hc : 0 < c) (hrs : 0 ≤ rs) (hq : 0 ≤ q.h) (hqc : rs * q.h ≤ c)
+    (hsrc : ∀ p ∈ src, 0 ≤ p.h ∧ rs * p.h ≤ c) :
+    (nbrsOf rs src q cands).Perm (bruteForce rs src q) ∧ (nbrsOf rs src q cands).Nodup ∧
+      ∀ j ∈ nbrsOf rs src q cands, j < src.length := by
+  have hg := nbrs_exact_grid rs c o src q hc hrs hq hqc hsrc
+  have hp : (nbrsOf rs src q cands).Perm (bruteForce rs src q) := by
+    rw [← hg]; exact hperm.filter _
+  have nd2 : (bruteForce rs src q).Nodup := List.nodup_range.filter _
+  refine ⟨hp, hp.nodup_iff.mpr nd2, ?_⟩
+  intro j hj
+  simp only [nbrsOf, List.mem_filter] at hj
+  exact accepts_lt rs src q j hj.2
+
+/-- The cell size chosen by `_compute_cell_size_for_binning` is positive and at
+least the cut-off `rs·h` of every particle of every array. -/
+theorem cellSize_covers (rs tiny : α) (hss : List (List α)) (hrs : 0 ≤ rs)
+    (ht0 : 0 < tiny) (ht1 : tiny ≤ 1) :
+    0 < cellSize rs tiny hss ∧
+      ∀ hs ∈ hss, ∀ h ∈ hs, rs * h ≤ cellSize rs tiny hss := by
+  constructor
+  · unfold cellSize; split
+    · exact one_pos
+    · exact lt_of_lt_of_le ht0 (not_lt.mp ‹_›)
+  · intro hs hh h hx
+    have hle : rs * h ≤ rs * hmaxAll hss :=
+      mul_le_mul_of_nonneg_left (hmaxAll_ge hss hs hh h hx) hrs
+    unfold cellSize; split
+    · exact le_trans hle (le_trans (le_of_lt ‹_›) ht1)
+    · exact hle
+
+/-- Grid family with the cell size the code computes: exact for every
+destination particle of every array against every source array. -/
+theorem nbrs_exact_grid_cellSize (rs tiny : α) (o : Pt α) (arrs : List (List (Pt α)))
+    (src dst : List (Pt α)) (q : Pt α) (hs : src ∈ arrs) (hd : dst ∈ arrs) (hq : q ∈ dst)
+    (hrs : 0 ≤ rs) (ht0 : 0 < tiny) (ht1 : tiny ≤ 1)
+    (hpos : ∀ a ∈ arrs, ∀ p ∈ a, 0 ≤ p.h) :
+    gridNbrs Int.floor rs (cellSize rs tiny (arrs.map (fun a => a.map (·.h)))) o src q =
+      bruteForce rs src q := by
+  obtain ⟨hc, hcov⟩ := cellSize_covers rs tiny (arrs.map (fun a => a.map (·.h))) hrs ht0 ht1
+  apply nbrs_exact_grid rs _ o src q hc hrs (hpos dst hd q hq)
+  · exact hcov _ (List.mem_map_of_mem hd) _ (List.mem_map_of_mem hq)
+  · intro p hp
+    exact ⟨hpos src hs p hp, hcov _ (List.mem_map_of_mem hs) _ (List.mem_map_of_mem hp)⟩
+
+end grid
+
+/-! ## storage: linked list -/
+
+theorem build_snoc (items : List (Nat × Nat)) (x : Nat × Nat) :
+    LL.build (items ++ [x]) = (LL.build items).insert x := by
+  simp [LL.build, List.foldl_append]
+
+/-- After any insertion sequence with distinct particle ids, walking `head[c]`
+(with at least as much fuel as there are particles) lists exactly the inserted
+particles of flattened cell `c`, most recently inserted first — in particular
+each exactly once. -/
+theorem ll_traverse_eq_bucket (items : List (Nat × Nat))
+    (hnd : (items.map (·.1)).Nodup) (c : Nat) :
+    ∀ n, items.length ≤ n →
+      (LL.build items).traverse n c =
+        ((items.filter (fun ic => ic.2 = c)).map (·.1)).reverse := by
+  induction items using List.reverseRecOn with
+  | nil =>
+    intro n _
+    simp [LL.traverse, LL.build, LL.empty]
+    cases n <;> rfl
+  | append_singleton items x ih =>
+    intro n hn
+    obtain ⟨i, c'⟩ := x
+    have hnd' : (items.map (·.1)).Nodup ∧ i ∉ items.map (·.1) := by
+      rw [List.map_append, List.nodup_append] at hnd
+      refine ⟨hnd.1, fun hm => ?_⟩
+      exact hnd.2.2 i hm i (by simp) rfl
+    have hlen : items.length + 1 ≤ n := by simpa using hn
+    have ihn := ih hnd'.1
+    have hnotin : ∀ m, items.length ≤ m → i ∉ (LL.build items).walk m ((LL.build items).head c) := by
+      intro m hm hmem
+      have := ihn m hm
+      simp only [LL.traverse] at this
+      rw [this] at hmem
+      simp only [List.mem_reverse, List.mem_map, List.mem_filter] at hmem
+      obtain ⟨a, ⟨ha, _⟩, hai⟩ := hmem
+      exact hnd'.2 (List.mem_map.mpr ⟨a, ha, hai⟩)
+    rw [build_snoc]
+    simp only [LL.traverse, List.filter_append, List.map_append, List.reverse_append]
+    by_cases hcc : c' = c
+    · subst hcc
+      obtain ⟨m, rfl⟩ : ∃ m, n = m + 1 := ⟨n - 1, by omega⟩
+      have hm : items.length ≤ m := by omega
+      have hhead : ((LL.build items).insert (i, c')).head c' = some i := by simp [LL.insert]
+      have hnext : ((LL.build items).insert (i, c')).next i = (LL.build items).head c' := by
+        simp [LL.insert]
+      rw [hhead]
+      simp only [LL.walk, hnext]
+      rw [walk_insert_of_not_mem _ _ _ _ _ (hnotin m hm)]
+      have := ihn m hm
+      simp only [LL.traverse] at this
+      rw [this]
+      simp
+    · have hhead : ((LL.build items).insert (i, c')).head c = (LL.build items).head c := by
+        simp only [LL.insert]
+        rw [if_neg (fun e => hcc e.symm)]
+      rw [hhead, walk_insert_of_not_mem _ _ _ _ _ (hnotin n (by omega))]
+      have := ihn n (by omega)
+      simp only [LL.traverse] at this
+      rw [this]
+      simp [hcc]
+
+/-! ## neighbour cache -/
+
+/-- For every assignment of destinations to threads and every order in which
+the fills happen (`sched`), a later `get_neighbors` for any destination `d`
+returns exactly what `find_nearest_neighbors` produces for `d` — whether `d`
+was filled by some thread before or is filled on demand now. -/
+theorem cache_get_eq_find (find : Nat → List Nat) (sched : List (Nat × Nat)) (d : Nat) :
+    (Cache.get find (Cache.run find Cache.reset sched) d).2 = find d := by
+  have hinv := Cache.inv_run find sched Cache.reset (Cache.inv_reset find)
+  have hinv' := Cache.inv_fillGuarded find _ (0, d) hinv
+  have hc := Cache.cached_fillGuarded find (Cache.run find Cache.reset sched) 0 d
+  exact (hinv' d hc).2.2
+
+/-- … and successive gets keep answering correctly (the cache never goes stale
+between updates). -/
+theorem cache_get_preserves (find : Nat → List Nat) (s : Cache) (d e : Nat)
+    (h : Cache.Inv find s) :
+    Cache.Inv find (Cache.get find s d).1 ∧
+      (Cache.get find (Cache.get find s d).1 e).2 = find e := by
+  have h1 := Cache.inv_fillGuarded find s (0, d) h
+  refine ⟨h1, ?_⟩
+  have h2 := Cache.inv_fillGuarded find _ (0, e) h1
+  exact (h2 e (Cache.cached_fillGuarded find _ 0 e)).2.2
+
+/-- `update()` forgets everything. -/
+theorem cache_update_resets (d : Nat) : Cache.reset.cached d = false := rfl
+
+/-! ## Tree family (Octree, CompressedOctree) -/
+section tree
+variable {α : Type} [Field α] [LinearOrder α] [IsStrictOrderedRing α]
+
+/-- The tree query returns exactly the brute-force set for every tree that
+satisfies `TreeInv` (every stored particle lies in the closed cube of each of
+its ancestors and has `h ≤ hmax` there), stores every source index exactly
+once; the pruning test `|centre − q| ≥ len/2 + rs·max(h_q, hmax)` never cuts a
+subtree that holds an accepted particle. -/
+theorem tree_query_exact (rs : α) (src : List (Pt α)) (q : Pt α) (t : Nnps.Tree α)
+    (hrs : 0 ≤ rs) (hq : 0 ≤ q.h) (hpos : ∀ p ∈ src, 0 ≤ p.h)
+    (hinv : TreeInv src t) (hnd : (Nnps.Tree.pids t).Nodup)
+    (hall : ∀ j, j < src.length → j ∈ Nnps.Tree.pids t) :
+    (treeNbrs rs src q t).Perm (bruteForce rs src q) ∧ (treeNbrs rs src q t).Nodup ∧
+      ∀ j ∈ treeNbrs rs src q t, j < src.length :=
+  exact_of_cover_nodup rs src q (Nnps.Tree.cands rs q t)
+    (fun j hj ha => cands_cover rs src q hrs hq hpos t hinv j (hall j hj) ha)
+    (hnd.sublist (cands_sublist rs q t))
+
+end tree
+
+/-! ## non-vacuity / executable examples (over ℚ, core `Rat.floor`) -/
+
+/-- three sources, exact tie excluded: `(3,4,0)` is at distance 5 = `rs·h` -/
+example :
+    let src : List (Pt Rat) := [⟨0, 0, 0, 5/2⟩, ⟨3, 4, 0, 5/2⟩, ⟨3, 399/100, 0, 5/2⟩]
+    bruteForce (2 : Rat) src ⟨0, 0, 0, 5/2⟩ = [0, 2] ∧
+    gridNbrs Rat.floor (2 : Rat) 5 ⟨-1/3, -1/3, 0, 0⟩ src ⟨0, 0, 0, 5/2⟩ = [0, 2] := by
+  decide +kernel
+
+/-- a two-leaf tree: the far leaf is pruned, the result is still exact -/
+example :
+    let src : List (Pt Rat) := [⟨0, 0, 0, 1/4⟩, ⟨1/4, 0, 0, 1/4⟩, ⟨4, 4, 4, 1/4⟩]
+    let t : Nnps.Tree Rat := Nnps.Tree.node ⟨0, 0, 0, 1/4⟩ 4
+      [Nnps.Tree.leaf ⟨0, 0, 0, 1/4⟩ (1/4) [0, 1], Nnps.Tree.leaf ⟨4, 4, 4, 1/4⟩ 0 [2]]
+    treeNbrs (2 : Rat) src ⟨0, 0, 0, 1/4⟩ t = [0, 1] ∧
+      bruteForce (2 : Rat) src ⟨0, 0, 0, 1/4⟩ = [0, 1] ∧
+      pruned (2 : Rat) ⟨0, 0, 0, 1/4⟩ ⟨4, 4, 4, 1/4⟩ 0 = true := by
+  decide +kernel
+
+example : cellSize (2 : Rat) (1/1000000) [[1/4, 1/2], [], [1/8]] = 1 ∧
+    hminScaled (2 : Rat) [[1/4, 1/2], [], [1/8]] = some 0 := by decide +kernel
+
+example : (LL.build [(0, 3), (1, 5), (2, 3), (3, 3)]).traverse 4 3 = [3, 2, 0] := by
+  decide +kernel
+
+example :
+    (Cache.get (fun d => [d, d + 1]) (Cache.run (fun d => [d, d + 1]) Cache.reset
+      [(1, 2), (0, 0), (1, 1)]) 1).2 = [1, 2] := by decide +kernel
+
+end PysphVerif.C01
